@@ -125,7 +125,7 @@ class SymSeq:
     used by the isinstance model.
     """
 
-    __slots__ = ("length", "fn", "pycls", "note", "memo")
+    __slots__ = ("length", "fn", "pycls", "note", "memo", "src")
 
     def __init__(self, length, fn, pycls=list, note=None):
         self.length = length
@@ -133,6 +133,7 @@ class SymSeq:
         self.pycls = pycls
         self.note = note
         self.memo = {}
+        self.src = None  # the symbolic mapping this sequence is the items() of, if any
 
     def at(self, k):
         """element k; evaluations are memoised per index term (deterministic, facts only grow on a path)"""
@@ -159,7 +160,7 @@ class SymSeq:
         return self.length if is_concrete_int(self.length) else None
 
     def __repr__(self):
-        return f"SymSeq<len={self.length}, {getattr(self.pycls, '__name__', self.pycls)}{', ' + self.note if self.note else ''}>"
+        return f"SymSeq<len={self.length!r}, {getattr(self.pycls, '__name__', self.pycls)}{', ' + self.note if self.note else ''}>"
 
     def __deepcopy__(self, memo):
         return self
